@@ -246,6 +246,11 @@ def run_all(tier, seed):
                 ("positional+named", lambda: K.mix(o, x=0.25, n=3, arr=arr), "call 4 1 x,n,arr", "err value"),
                 ("missing", lambda: K.mix(obj=o, x=0.25, n=3), "call 4 0 obj,x,n", "err assertion"),
                 ("extra", lambda: K.mix(obj=o, x=0.25, n=3, arr=arr, y=1), "call 4 0 obj,x,n,arr,y", "err assertion"),
+                # a missing SCALAR must be refused too (None converts to a floating-point scalar without complaint: nan)
+                ("missing-float", lambda: K.mix(obj=o, n=3, arr=arr), "call 4 0 obj,n,arr", "err assertion"),
+                ("missing-int", lambda: K.mix(obj=o, x=0.25, arr=arr), "call 4 0 obj,x,arr", "err assertion"),
+                ("missing-object", lambda: K.mix(x=0.25, n=3, arr=arr), "call 4 0 x,n,arr", "err assertion"),
+                ("missing-all", lambda: K.mix(), "call 4 0 -", "err assertion"),
                 ("renamed", lambda: K.mix(obj=o, x=0.25, n=3, array=arr), "call 4 0 obj,x,n,array", "err key"),
                 # one argument missing and a misspelt one given instead: the count is right, the lookup by name must still fail
                 ("renamed-scalar", lambda: K.mix(obj=o, xx=0.25, n=3, arr=arr), "call 4 0 obj,xx,n,arr", "err key"),
